@@ -72,7 +72,33 @@ def _partial_doc_space():
             yield dict(kinds=[list(k) for k, _ in tup], documented=list(docs), ret="noret", hdr="one", names=A.NAMES[:3]), A.mk_ir(list(zip(A.NAMES, ps)), None)
 
 
+# configuration read from the environment at import time (child interpreters): narrow wrap width, two-space tab
+ENVS = [{"DOCTRANS_LINE_LENGTH": "40"}, {"DOCTRANS_LINE_LENGTH": "72", "DOCTRANS_TAB": "  "}]
+ENV_BLOCK = 40
+
+
+def _env_space():
+    """run again under each environment: I(1) over the full alphabet with one return kind, and the wrap sweep"""
+    yield from A.ir_space(A.sigma_param(), [], 1, returns_1=A.RETURNS[1:2], alt_names=())
+
+
+def _wrap_sweep_space(tier):
+    """descriptions of every length across the wrap column: where the emitted docstring breaks depends on nothing but that length"""
+    defaults = [("str", "a b"), ("str", 'say "hi"'), ("int", 5), ("Optional[str]", A.NoneStr)]
+    for n in range(50, 101, 1) if tier != "quick" else range(60, 100, 2):
+        words = ("word " * 40)[: n - 1].rstrip() + "x"
+        for typ, dv in defaults:
+            p = A.make_param(typ, "set", dv, "sweep", words)
+            yield dict(kinds=[[typ, "sweep", "len%d" % n]], ret="ret", hdr="one", names=["alpha"], sweep=n), A.mk_ir([("alpha", p)], A.RETURNS[1][1])
+
+
 def cases(tier, seed):
+    n_env = sum(1 for _ in _env_space())
+    for ei in range(len(ENVS)):
+        for lo in range(0, n_env, ENV_BLOCK):
+            yield dict(kind="env_block", env=ei, lo=lo, hi=lo + ENV_BLOCK)
+    for key, ir in _wrap_sweep_space(tier):
+        yield dict(key=key, ir=F.ir_to_json(ir))
     for key, ir in _partial_doc_space():
         if A.defaults_form_suffix(ir):
             yield dict(key=key, ir=F.ir_to_json(ir))
@@ -125,6 +151,13 @@ def run_config(ir, cfg):
 
 
 def run(case):
+    from mc import core
+
+    if case.get("kind") == "env_block":
+        sub = [dict(key=key, ir=F.ir_to_json(ir)) for key, ir in itertools.islice(_env_space(), case["lo"], case["hi"])]
+        return core.run_env_block("mc.checks.c02", sub, ENVS[case["env"]], case["env"])
+    if "env" in case and "ir" in case:
+        return core.run_env_case("mc.checks.c02", case, ENVS)
     ir = F.ir_from_json(case["ir"])
     cfgs = [case["cfg"]] if "cfg" in case else CONFIGS
     viol, n, outcomes = [], 0, set()
